@@ -54,20 +54,21 @@ def gen_sequence(rng, syms):
         # to an expression that folds to 1, so hierarchies use literal ratios (symbolic ratios: stream rep-direct)
         return {"kind": kind, "ratio": E.num(rng.choice([2, 3, Fraction(1, 2), Fraction(3, 2)]))}
     if kind == "closed_form":
-        k = "k"
+        k = rng.choice(["k", "n_terms", "k"])     # the num_terms symbol need not be the usual one either
         body = rng.choice([
             E.op("div", E.op("mul", E.sym(k), E.op("add", E.sym(k), E.num(1))), E.num(2)),
             E.op("mul", E.sym(k), p()),
             E.op("add", E.op("pow", E.sym(k), E.num(2)), p()),
         ])
         return {"kind": kind, "sum": body, "prod": None, "num_terms_symbol": k}
+    it = rng.choice(["i", "i", "j", "k", "it_1"])     # not always the schema's default name
     term = rng.choice([
-        E.op("add", E.op("mul", p(), E.sym("i")), E.num(1)),
-        E.op("pow", E.num(2), E.sym("i")),
-        E.op("mul", E.sym("i"), E.sym("i")),
+        E.op("add", E.op("mul", p(), E.sym(it)), E.num(1)),
+        E.op("pow", E.num(2), E.sym(it)),
+        E.op("mul", E.sym(it), E.sym(it)),
         p(),
     ])
-    return {"kind": kind, "term_expression": term, "iterator_symbol": "i"}
+    return {"kind": kind, "term_expression": term, "iterator_symbol": it}
 
 
 # ------------------------------------------------------------------ hierarchy generator (mostly valid)
